@@ -8,11 +8,15 @@ G = fm.UniformGrid((4, 3))                        # cells 3 x 2
 G2 = fm.UniformGrid((4, 3), axes_reversed=True)   # same geometry, data shape (2, 3)
 G3 = fm.UniformGrid((4, 3), axes_increase=[False, True])   # same geometry, x stored decreasing
 G4 = fm.UniformGrid((4, 3), axes_increase=[True, False])   # same geometry, y stored decreasing
+L1 = fm.UniformGrid((4,))                                  # one-dimensional, 3 cells
+L1R = fm.UniformGrid((4,), axes_increase=[False])          # the same cells stored in decreasing order
 H = fm.UniformGrid((5, 3))
 GC = fm.UniformGrid((4, 3), crs="EPSG:25832")     # the node coordinates of G, read in another CRS
 NG = fm.NoGrid()
-GRIDS = {"none": None, "g": G, "g2": G2, "g3": G3, "g4": G4, "h": H, "gc": GC, "nogrid": NG}
+GRIDS = {"none": None, "g": G, "g2": G2, "g3": G3, "g4": G4, "h": H, "gc": GC, "nogrid": NG, "l": L1, "lr": L1R}
 SAME = ("g", "g2", "g3", "g4")
+M1_CANON = np.array([True, False, False])
+N1_CANON = np.array([False, False, True])
 M_CANON = np.array([[True, False], [False, False], [False, True]])
 N_CANON = np.array([[False, False], [True, False], [False, False]])
 H_M = np.array([[True, False], [False, False], [False, True], [False, False]])
@@ -27,10 +31,12 @@ def mask_for(tok, gridtok):
     if tok == "E0":
         return np.ma.nomask
     if tok == "E":
-        shape = {"g": (3, 2), "g2": (2, 3), "g3": (3, 2), "g4": (3, 2), "h": (4, 2), "gc": (3, 2)}[gridtok]
+        shape = {"g": (3, 2), "g2": (2, 3), "g3": (3, 2), "g4": (3, 2), "h": (4, 2), "gc": (3, 2), "l": (3,), "lr": (3,)}[gridtok]
         return np.zeros(shape, dtype=bool)
     if gridtok == "h":
         return H_M if tok == "M" else H_N
+    if gridtok in ("l", "lr"):
+        return GRIDS[gridtok].from_canonical(M1_CANON if tok == "M" else N1_CANON)
     if gridtok == "gc":
         gridtok = "g"
     canon = M_CANON if tok == "M" else N_CANON
@@ -54,7 +60,7 @@ def grid_tok(g):
         return "none"
     if isinstance(g, fm.NoGrid):
         return "nogrid"
-    for tok in ("g", "g2", "g3", "g4", "h", "gc"):
+    for tok in ("g", "g2", "g3", "g4", "h", "gc", "l", "lr"):
         if g == GRIDS[tok] and g.crs == GRIDS[tok].crs:        # StructuredGrid.__eq__ compares geometry and layout
             return tok
     return "?"
@@ -73,8 +79,8 @@ def mask_tok(m, g):
     if arr.ndim > 0 and not arr.any():
         return "E"
     gt = grid_tok(g)
-    cands = {"M": mask_for("M", gt if gt in SAME + ("h", "gc") else "g"),
-             "N": mask_for("N", gt if gt in SAME + ("h", "gc") else "g")}
+    cands = {"M": mask_for("M", gt if gt in SAME + ("h", "gc", "l", "lr") else "g"),
+             "N": mask_for("N", gt if gt in SAME + ("h", "gc", "l", "lr") else "g")}
     for tok, ref in cands.items():
         if arr.shape == ref.shape and np.array_equal(arr, ref):
             return tok
